@@ -30,13 +30,13 @@ SEQ_NOTE = ("Trusted base: the cfg-gated interception layer in clock-bound-shm/s
 SEQ_TECH = "stateless model checking of the real ShmWriter/ShmReader under a simulated C11 release/acquire memory model (exhaustive read-from / interleaving / crash-point enumeration, reader states to a fixpoint)"
 CHECKS.update({
  "C02": dict(engine="seqmc", category="model_checking", technique=SEQ_TECH,
-   text="For every writer trace (initial generations incl. the 16-bit wrap and odd crash-left values, K<=2..3 updates) the real snapshot() is executed for every reader attach point and every read-from choice the C11 RA model allows at each load (all choices for 2 chunks; bounded number of stale reads for 7 words), breadth-first over the reader's cache states to a fixpoint; every returned record must be the empty record or a completed publication. Also with the writer stopped for ever at every point, running retry-exhausting calls in full. Record families: all-distinct words, status-only changes, real records alternating with the all-zero placeholder, an identical record republished. This is the property's quantifier (all interleavings x all RA executions) up to the stated bounds.",
+   text="For every writer trace (initial generations incl. the 16-bit wrap and odd crash-left values, K<=2..3 updates) the real snapshot() is executed for every reader attach point and every read-from choice the C11 RA model allows at each load (all choices for 2 chunks; bounded number of stale reads for 7 words), breadth-first over the reader's cache states to a fixpoint; every returned record must be the empty record or a completed publication. Also with the writer stopped for ever at every point, running retry-exhausting calls in full. Record families: all-distinct words, status-only changes, real records alternating with the all-zero placeholder, an identical record republished. This is the property's quantifier (all interleavings x all RA executions) up to the stated bounds. A read(2)/pread(2) of the segment file by the reader (ShmReader::new reads the header that way) is part of the model: its record bytes are loads of the simulated memory with the same read-from choices as a copy through the mapping. The time budget is a safety net (600 s quick); a search cut by it says so on its OK line.",
    design_ref="3", note=SEQ_NOTE),
  "C03": dict(engine="seqmc", category="model_checking", technique=SEQ_TECH,
    text="Same exploration; publication index returned by successive calls never decreases (RA and SC modes); in SC mode (all interleavings of writer events with reader loads, canonicalised per location) a call all of whose loads are explained by an idle writer position (idleness is independent of the generation's parity) must return the latest completed publication there (compared by content, so repeated records are handled). Plus a 70 000-publication sequential run through the wrap with long-lived, sparse and fresh readers and clean restarts, for behaviour that only arms after many updates.",
    design_ref="3.3, 3.4", note=SEQ_NOTE),
  "C04": dict(engine="seqmc", category="fault_enumeration", technique=SEQ_TECH + "; crash at every intercepted writer event, restart",
-   text="Two (thorough: three) writer incarnations with a crash after every intercepted event of ShmWriter::new / wipe / write (each file operation of wipe, the version store, each generation store, each record chunk), then a restart; readers attached at every position (the attach itself is explored like a call): (a) only complete records, in order (RA + SC), (b) SC freshness after the restarted daemon's first publication, (c) writer-trace oracles: a valid segment is never wiped/emptied/re-laid-out, an unusable one is attachable and 72 bytes after the first publication; ShmReader::new accepts exactly the file states the documented header rules call valid.",
+   text="Two (thorough: three) writer incarnations with a crash after every intercepted event of ShmWriter::new / wipe / write (each file operation of wipe, the version store, each generation store, each record chunk), then a restart; readers attached at every position (the attach itself is explored like a call): (a) only complete records, in order (RA + SC), (b) SC freshness after the restarted daemon's first publication, (c) writer-trace oracles: a valid segment is never wiped/emptied/re-laid-out, an unusable one is attachable and 72 bytes after the first publication; ShmReader::new accepts exactly the file states the documented header rules call valid. The first plan is repeated in a least-privilege environment (daemon and clients in a forked child as uid 65534, no capabilities, RLIMIT_MEMLOCK 0, umask 022) with the same oracles; its violations replay in that environment.",
    design_ref="3.3, 3.4", note=SEQ_NOTE),
  "C11": dict(engine="seqmc", category="model_checking", technique="explicit-state closure over (generation, idle/in-flight) with the successor relation computed by the real ShmWriter::write for all 65535 start values x crash points",
    text="All 65535 non-zero start generations x {three consecutive updates by one writer instance; crash after each of the 4 events of an update followed by a restart and three more updates}, plus the histories from a freshly wiped segment: in the file as a third-party reader sees it the generation is odd at every position inside an update, the record is only modified while it is odd, it is even, non-zero and changed after the update, 0 is never visible after the segment has been published to (at any trace position, including a restarted writer's start-up), the wrap continues at 2; plus the 70 000-publication sequential run. Because every value is a start value, the invariant is inductive; the reachable closure from the wiped segment is reported as states/transitions.",
@@ -63,34 +63,34 @@ CHECKS.update({
    text="Every sequence of non-synchronised outcomes of depth 5 (thorough 8) after a daemon start at two machine uptimes: every record published before the lifetime's first synchronised report must carry Unknown; every distinct record so published is then written through the real ShmWriter (fresh segment, and restart over an older good record) and evaluated by the real client library (new and long-lived client) at uptimes 5/100/999/1001 s: it must say Unknown.",
    design_ref="4.4", note=HIST_NOTE),
  "C10": dict(engine="histmc", category="exploration", technique="exhaustive sweep of the 16-bit leap-status domain x boundary alphabets through the real decode/classify/FSM path against a reference classifier",
-   text="All 65536 leap-status values x update-interval alphabet x reference-time ages on both sides of 'now' and of the eight-interval threshold (exact dyadic threshold, +/-1 ns, whole-second neighbours) x previous status, as wire-decoded tracking messages through the real process_messages; published status compared with the reference classification (ages inside (floor(8I) s, 8I] are a don't-care); ages include the wrap points of narrowing conversions. Phase 2: the same report processed twice with virtual time advancing in between (every pair of ages, with and without an outage message between): a classification must not be cached.",
+   text="All 65536 leap-status values x update-interval alphabet x reference-time ages on both sides of 'now' and of the eight-interval threshold (exact dyadic threshold, +/-1 ns, whole-second neighbours) x previous status, as wire-decoded tracking messages through the real process_messages; published status compared with the reference classification (ages inside (floor(8I) s, 8I] are a don't-care); ages include the wrap points of narrowing conversions. Phase 2: the same report processed twice with virtual time advancing in between (every pair of ages, with and without an outage message between): a classification must not be cached. Variant 0 of the report fields no property gives a meaning to (stratum, source address, last/RMS offset, frequencies, skew) is crossed with every leap code, three more variants (small mixed signs, large positive, extreme encodings) with the leap codes around the documented ones (thorough: and every 257th).",
    design_ref="4.3, 4.4", note=HIST_NOTE),
  "C12": dict(engine="histmc", category="exploration", technique="exhaustive enumeration of delay placements (virtual time advancing at each clock read and during the request) with a logged clock-read order",
-   text="For every combination of per-read time advance and reply latency: on the daemon side the as-of of the emitted message must be a monotonic reading logged before the request to chronyd; on the client side (record API and client library over a real segment) the realtime clock is read before the monotonic clock, the interval is centred on the realtime reading and its half-width is at least bound + drift x (the monotonic reading taken after the realtime reading the interval is centred on - as-of); start ages include ones just before as-of so that the clock crosses the causality window during the call (a retry path is then taken).",
+   text="For every combination of per-read time advance and reply latency: on the daemon side the as-of of the emitted message must be a monotonic reading logged before the request to chronyd; on the client side (record API and client library over a real segment) the realtime clock is read before the monotonic clock, the interval is centred on the realtime reading and its half-width is at least bound + drift x (the monotonic reading taken after the realtime reading the interval is centred on - as-of); start ages include ones just before as-of so that the clock crosses the causality window during the call (a retry path is then taken). Transient failures: for advance 0 / 1 ms and latency 0 / 10 ms, each clock read of the poll in turn fails once (EINVAL); the poll may end without a report or the thread may die, but a report that is sent must still carry a monotonic reading taken before the request.",
    design_ref="4.4", note=HIST_NOTE),
  "C13": dict(engine="histmc", category="model_checking", technique=HIST_TECH,
-   text="Every sequence up to depth 3 (thorough 4) of (answer kind: tracking with the PHC's reference id / another id / silence / a non-tracking reply) x (PHC file readable or not) x (gap since the previous poll: 0.1, 1, 4.9, 5, 5.1, 100 s; reply latency 0 or 2.9 s) x (PHC configured or not) through the real polling loop with the real ClockErrorBoundPoller (virtual Instant): the message sent to the writer thread is compared with a reference poller (grace iff the last good answer is < 5 s old, Unknown-class immediately after start, PHC bound added iff the ids match, PHC read failure never a data message, as-of = the poll instant). PHC read failures: missing file, and read(2) failing with EIO/EOPNOTSUPP/EBUSY/ENODEV on a file that opens (read interposed by the harness); 4 variants of the report fields no property gives a meaning to (stratum 0/1/2/15, source address, ...); gaps include 2^32 us/ms + 1 s; one 7 350-poll lifetime.",
+   text="Every sequence up to depth 3 (thorough 4) of (answer kind: tracking with the PHC's reference id / another id / silence / a non-tracking reply) x (PHC file readable or not) x (gap since the previous poll: 0.1, 1, 4.9, 5, 5.1, 100 s; reply latency 0 or 2.9 s) x (PHC configured or not) through the real polling loop with the real ClockErrorBoundPoller (virtual Instant): the message sent to the writer thread is compared with a reference poller (grace iff the last good answer is < 5 s old, Unknown-class immediately after start, PHC bound added iff the ids match, PHC read failure never a data message, as-of = the poll instant). PHC read failures: missing file, and read(2) failing with EIO/EOPNOTSUPP/EBUSY/ENODEV on a file that opens (read interposed by the harness); 4 variants of the report fields no property gives a meaning to (stratum 0/1/2/15, source address, ...); gaps include 2^32 us/ms + 1 s; one 7 350-poll lifetime. The step alphabet also contains polls before which the realtime clock was stepped by -4 s, +4.5 s and -100 s while the monotonic clock continues (the grace period is a matter of elapsed time).",
    design_ref="4.4", note=HIST_NOTE),
 })
 
 CHECKS.update({
  "C19": dict(engine="procmc", category="exploration", technique="bounded-exhaustive enumeration of a boundary alphabet of command lines on the real release binary (private mount namespaces), exact oracle",
-   text="The release clockbound binary (built without hooks from the current tree) is started once per --max-drift-rate value in a private mount namespace with its own tmpfs on /run; the drift field of the segment it publishes must be exactly 1000 x the value (1000 when omitted), or the process must exit non-zero without publishing. Alphabet: every 2003rd (thorough: every 97th) representable rate (a prime-stride progression: scattered single-value errors, e.g. of a float conversion, are hit), small values, powers of two +/- 1 and, for every k = 1..999 (thorough; a subset in quick), both sides of the point where value x 1000 crosses k x 2^32, so any wrapping/truncating/saturating conversion is caught; plus arguments clap must reject. Not exhaustive over 2^32 values (stated in the evidence).",
+   text="The release clockbound binary (built without hooks from the current tree) is started once per --max-drift-rate value in a private mount namespace with its own tmpfs on /run; the drift field of the segment it publishes must be exactly 1000 x the value (1000 when omitted), or the process must exit non-zero without publishing. Alphabet: every 2003rd (thorough: every 97th) representable rate (a prime-stride progression: scattered single-value errors, e.g. of a float conversion, are hit), small values, powers of two +/- 1 and, for every k = 1..999 (thorough; a subset in quick), both sides of the point where value x 1000 crosses k x 2^32, so any wrapping/truncating/saturating conversion is caught; plus arguments clap must reject. Not exhaustive over 2^32 values (stated in the evidence). The structured values are crossed with how the option reaches the program: --max-drift-rate=V, -m V, and before / after -r PHC0 -i <interface> on an interface with a (faked, tmpfs over /sys/class/net in the private namespace) PTP hardware clock; the flag omitted with and without the PHC options.",
    design_ref="7", note="Trusted base: unshare/tmpfs isolation, od/stat to read the published segment. Without chronyd the first poll fails at once and the first (Unknown) record is published within milliseconds."),
 })
 
 CHECKS.update({
  "C15": dict(engine="threadmc", category="model_checking", technique="stateless model checking of the real daemon threads under a controlled (baton) scheduler: iterative preemption-bounded DFS over schedules x exhaustive fault placement",
-   text="The real thread_manager::run with its real poller and writer threads (std threads serialised by a baton behind cfg-gated mpsc/spawn stand-ins, virtual time) is executed for every schedule with at most 2 (thorough: 4) preemptions and at most 1 (2) unfairly early timeouts, for every fault placement: victim in {poller, writer} x every fault opportunity of start-up and the first 3 (4) loop iterations (before/after every send, receive, chrony query; the named loop-head and start-up points) x {panic, early return}, a real start-up failure (segment path uncreatable), chronyd answering / absent / wedged (an environment model of the datagram exchange that honours the client's own timeout and retry options), both orders of the abort broadcast. Oracle on every execution in which the fault fired: run() returns, every thread is joined, no deadlock (the daemon lingering), exit within 4 + u virtual seconds (+ one request in progress when chronyd is wedged).",
+   text="The real thread_manager::run with its real poller and writer threads (std threads serialised by a baton behind cfg-gated mpsc/spawn stand-ins, virtual time) is executed for every schedule with at most 2 (thorough: 4) preemptions and at most 1 (2) unfairly early timeouts, for every fault placement: victim in {poller, writer} x every fault opportunity of start-up and the first 3 (4) loop iterations (before/after every send, receive, chrony query; the named loop-head and start-up points) x {panic, early return}, a real start-up failure (segment path uncreatable), chronyd answering / absent / wedged (an environment model of the datagram exchange that honours the client's own timeout and retry options), both orders of the abort broadcast. Oracle on every execution in which the fault fired: run() returns, every thread is joined, no deadlock (the daemon lingering), exit within 4 + u virtual seconds (+ one request in progress when chronyd is wedged). A tracing subscriber is installed as the daemon's main() does (same maximum level, output discarded), so the arguments of log statements are evaluated on every path.",
    design_ref="5", note="Trusted base: the scheduler in harness/src/threadmc/sched.rs; the stand-ins in clock-bound-d/src/verif.rs (they wrap the real std channels and threads; a disagreement between the model queue and the real channel is a hard error). Code between two scheduling points is assumed atomic (workers share nothing but channels and the segment). Bounded preemptions and horizon; not an unbounded liveness proof."),
 })
 
 CHECKS.update({
  "C16": dict(engine="gridmc", category="exploration", technique="bounded-exhaustive enumeration of a structured alphabet of file contents and path kinds on the real open / repair paths against a validator transcribed from the documentation",
-   text="Every truncation/extension length 0..80 of a valid segment, the product magic x declared size x version x generation x body, every single-byte mutation (5 values) of the first 64 bytes, and missing file / missing parents / directory / dangling symlink: ShmReader::new and ClockBoundClient::new_with_path must return exactly the outcome the documented header rules give (kind, errno for system calls), never crash (each case runs in a forked worker); then the real ShmWriter::new + one write() over the same path: a fresh reader and the client library read back exactly the published record, and a file that was unusable is exactly the documented 72-byte layout afterwards.",
+   text="Every truncation/extension length 0..80 of a valid segment, the product magic x declared size x version x generation x body, every single-byte mutation (5 values) of the first 64 bytes, and missing file / missing parents / directory / dangling symlink: ShmReader::new and ClockBoundClient::new_with_path must return exactly the outcome the documented header rules give (kind, errno for system calls), never crash (each case runs in a forked worker); then the real ShmWriter::new + one write() over the same path: a fresh reader and the client library read back exactly the published record, and a file that was unusable is exactly the documented 72-byte layout afterwards. Every case is evaluated twice: everything as the harness user, and with the client-side steps (open before the repair, open / read back after the first publication) in a forked child running as uid 65534 with no capabilities and RLIMIT_MEMLOCK 0 while the daemon-side steps stay with the harness user (a client does not own the segment).",
    design_ref="6", note="Trusted base: the validator in harness/src/gridmc/segfiles.rs (transcribed from the statement and docs); tmpfs semantics. Structured alphabet, not all byte contents (stated in the evidence)."),
  "C17": dict(engine="gridmc", category="exploration", technique="bounded-exhaustive enumeration + differential execution (C library vs Rust client on the same segment at the same virtual instant; file bytes vs a decoder transcribed from the protocol document)",
-   text="(i) 9000 records (product of field alphabets x 3 statuses) written by the real ShmWriter are decoded from the file with offsets/widths transcribed by hand from docs/PROTOCOL.md (magic in any of the readings the document allows, size 72, version 1, even generation, every field, status 0/1/2). (ii) A C program compiled at check time against clockbound.h and linked with the freshly built libclockbound.so and libclockbound.a (it defines clock_gettime itself, so the library reads the scripted clock) is compared with the Rust client on ~5300 cases per library: record x age grid incl. both status thresholds and the causality window, injected clock_gettime failures, and the C16 file alphabet for clockbound_open; interval, status, error kind, errno and detail must agree; (iii) every sequence of up to 3 segment mutations (a complete publication, an update left in flight, a wipe, nothing) with long-lived contexts in both libraries and a now() after every step - the two libraries must carry the same reader state.",
+   text="(i) 9000 records (product of field alphabets x 3 statuses) written by the real ShmWriter are decoded from the file with offsets/widths transcribed by hand from docs/PROTOCOL.md (magic in any of the readings the document allows, size 72, version 1, even generation, every field, status 0/1/2). (ii) A C program compiled at check time against clockbound.h and linked with the freshly built libclockbound.so and libclockbound.a (it defines clock_gettime itself, so the library reads the scripted clock) is compared with the Rust client on ~5300 cases per library: record x age grid incl. both status thresholds and the causality window, injected clock_gettime failures, and the C16 file alphabet for clockbound_open; interval, status, error kind, errno and detail must agree; (iii) every sequence of up to 3 segment mutations (a complete publication, an update left in flight, a wipe, nothing) with long-lived contexts in both libraries and a now() after every step - the two libraries must carry the same reader state. Also: the first / second open(2), header read(2) and mmap(2) made while a client opens a valid segment fail once with EINTR, EAGAIN, EIO, ENOMEM, EACCES, EMFILE (interposed in the harness and in the C program) - both libraries must report the same kind and errno; a library call that does not return within 20 s of real time is reported as such.",
    design_ref="6", note="Trusted base: cc, symbol interposition of clock_gettime (checked: the C program reports which clock the library read first), the hand-transcribed decoder."),
 })
 
